@@ -254,8 +254,10 @@ def nontrivial(case):
 @st.composite
 def sampling_cases(draw, tier):
     """the diagonal is what the model samples from - also with long chains (more than 16 / 32 Gibbs steps) on slowly mixing (strongly coupled) models"""
-    k = draw(st.sampled_from([2, 17, 40, 200]))
+    k = draw(st.sampled_from([2, 17, 40, 200, 200, 100]))
     sc = draw(gen.state_case(types=["density"], n=(2, 3), nh=(1, 2), na=(1, 2), scales=[2.0, 4.0, 6.0] if k > 2 else [0.5, 2.0], bound=40.0))
+    if k > 2 and draw(st.integers(0, 2)) > 0:
+        sc["am"] = draw(gen.balanced_net(sc["n"], sc["nh"], sc["na"]))        # two-mode, slowly mixing kernel
     return {"state": sc, "k": k, "v0": draw(st.integers(0, 2 ** sc["n"] - 1)), "torch_seed": draw(st.integers(0, 2 ** 31 - 1)), "m": draw(st.integers(1, 5))}
 
 
@@ -266,5 +268,5 @@ def check_sampling(case):
 
 SUBCHECKS = [
     Sub("physical", check, strategy=lambda tier: cases(tier), quick=1500, thorough=30000, nontrivial=nontrivial, labels=gen.arch_label),
-    Sub("sampling", check_sampling, strategy=lambda tier: sampling_cases(tier), quick=32, thorough=400, per_shard=2),
+    Sub("sampling", check_sampling, strategy=lambda tier: sampling_cases(tier), quick=48, thorough=480, per_shard=3),
 ]
